@@ -15,7 +15,8 @@ F_NET = "happysimulator/components/network/network.py"
 
 # ---------------------------------------------------------------------------- ghost statements
 # Network: ghost log of every message created (a superset of the messages delivered)
-ghost(F_NET, "Network.send", "return event", "self.g_sent.append((event_type, event.context['metadata']))", where="before")
+ghost(F_NET, "Network.send", "return event",
+      "self.g_sent[self.g_nsent] = (event_type, event.context['metadata']); self.g_nsent = self.g_nsent + 1", where="before")
 # submit: what the client was promised (L8)
 ghost(F_RAFT, "RaftNode.submit", "self._pending_futures[entry.index] = future",
       "future.g_index = entry.index; future.g_term = entry.term; future.g_cmd = entry.command")
@@ -31,17 +32,17 @@ loop(F_RAFT, "RaftNode._find_peer", 1, inv=[
     ("no-earlier-peer-has-that-name", lambda L: forall(Int, lambda j: implies(
         (0 <= j) & (j < L.i), peer_at(L.self, j).name != L.source_name), "j"))])
 
-SENT_LOG = [("Network", "g_sent")]
+SENT_LOG = [("Network", "g_sent"), ("Network", "g_nsent")]
 
 
 def _sent_grows_by(L, n):
-    return extends_by(sent(L.self), sent(L.old(L.self)), n)
+    return sent_extends_by(sent(L.self), sent(L.old(L.self)), n)
 
 
 def _each_sent(L, ok):
     """every message created so far by this loop (one per visited peer) satisfies ok(node, sent element, peer index)"""
-    base = z3.Length(sent(L.old(L.self)))
-    return forall(Int, lambda j: implies((0 <= j) & (j < L.i), ok(L.self, nth(sent(L.self), base + j.t), j)), "j")
+    base = sent(L.old(L.self)).n
+    return forall(Int, lambda j: implies((0 <= j) & (j < L.i), ok(L.self, sent(L.self).at(base + j.t), j)), "j")
 
 
 loop(F_RAFT, "RaftNode._start_election", 1, modifies=SENT_LOG, inv=[
@@ -86,8 +87,8 @@ ENTRIES = Seq(LOGENTRY)
 
 
 def zi(x):
-    """raw z3 Int term of a python/symbolic int"""
-    return num(x)
+    """raw z3 Int term of a python/symbolic int (raw terms pass through)"""
+    return x if z3.is_expr(x) else num(x)
 
 
 def nth(t, i):
@@ -106,6 +107,15 @@ def nth(t, i):
     if k == z3.Z3_OP_SEQ_EXTRACT:
         return nth(t.arg(0), t.arg(1) + i)
     return t[i]
+
+
+def hint(q, term):
+    """when the bound variable q of a goal has been skolemised, register `term` (built from it) as an
+    instantiation point for the quantified assumptions (only for skolems: no instantiation cascade)"""
+    t = getattr(q, "t", q)
+    c = _ctx.cur()
+    if z3.is_const(t) and str(t).startswith("sk_") and not getattr(c, "inst_depth", 0):
+        c.note_term(z3.simplify(term))
 
 
 def ent_at(entries, k):
@@ -463,7 +473,8 @@ def mget(m, k):
 
 # ============================================================================ C. network: message creation
 SENT = Tuple(Str, MSG)
-cls(Network, ghost={"g_sent": Seq(SENT)})
+SENTMAP = Map(Int, SENT)      # ghost log as an array: message k of the run under key k, g_nsent messages so far
+cls(Network, ghost={"g_sent": SENTMAP, "g_nsent": Int})
 
 
 def built_msg(payload, source, destination):
@@ -479,30 +490,46 @@ def built_msg(payload, source, destination):
 def _send_post(s):
     m = built_msg(s.payload, s.source, s.destination)
     r = s.result
-    new, old = seq_term(s.self.g_sent), seq_term(s.old(s.self).g_sent)
-    return [("message-recorded-as-sent", extends_by(new, old, 1) & mk_bool(
-                nth(new, z3.Length(old)) == SENT.dt.mk(Str.unwrap(s.event_type), m))),
+    new, old = sent_of_network(s.self), sent_of_network(s.old(s.self))
+    return [("message-recorded-as-sent", mk_bool(z3.And(new.n == old.n + 1, new.arr == z3.Store(
+                old.arr, old.n, SENT.dt.mk(Str.unwrap(s.event_type), m))))),
             ("carries-source-destination-and-payload", mk_bool(md(r) == m)),
             ("addressed-to-the-network-now", same(r.target, s.self) & (ns(r.time) == now_ns(s.self))
                 & (r.event_type == s.event_type) & iff(r.daemon, s.daemon) & Not(r._cancelled))]
 
 
 SEND_ARGS = {"source": Ref(Entity), "destination": Ref(Entity), "event_type": Str, "payload": Opt(MSG), "daemon": Bool}
-fn(Network, "send", args=SEND_ARGS, returns=Ref(Event), modifies=["g_sent"],
+fn(Network, "send", args=SEND_ARGS, returns=Ref(Event), modifies=["g_sent", "g_nsent"],
    ensures=[(n, (lambda s, i=i: _send_post(s)[i][1])) for i, n in enumerate(
        ["message-recorded-as-sent", "carries-source-destination-and-payload", "addressed-to-the-network-now"])])
 SEND = (Network, "send")
 
 
-def sent(o, state=None):
-    """raw term of the ghost sequence of messages created through o's network"""
-    return field_term(ObjProxy(field_term(o, "_network"), Network, o._frozen), "g_sent")
+class SentLog:
+    """view of the ghost log of created messages: message k is at(k), 0 <= k < n (raw terms)"""
+
+    def __init__(self, arr, n):
+        self.arr, self.n = arr, n
+
+    def at(self, k):
+        return z3.Select(self.arr, zi(k))
 
 
-def sent_since(s):
-    """raw term: the messages this call created (suffix of the ghost log; `sent-log-only-grows` proves it is one)"""
-    new, old = sent(s.self), sent(s.old(s.self))
-    return z3.Extract(new, z3.Length(old), z3.Length(new) - z3.Length(old))
+def sent_of_network(net):
+    return SentLog(SENTMAP.dt.val(field_term(net, "g_sent")), field_term(net, "g_nsent"))
+
+
+def sent(o):
+    """the ghost log of messages created through o's network, in o's heap state"""
+    return sent_of_network(ObjProxy(field_term(o, "_network"), Network, o._frozen))
+
+
+def sent_extends(new, old):
+    return mk_bool(new.n >= old.n) & forall(Int, lambda p: implies((0 <= p) & mk_bool(p.t < old.n), mk_bool(new.at(p) == old.at(p))), "p")
+
+
+def sent_extends_by(new, old, n):
+    return mk_bool(new.n == old.n + zi(n)) & sent_extends(new, old)
 
 
 def kind_of(sent_elem):
@@ -653,7 +680,7 @@ NODE_GUAR = [
     ("L3-candidate-vote-set-restarts-with-the-term", _votes_only_this_term),
     ("L6-leader-log-append-only", _leader_append_only),
     ("L7-applied-sequence-only-extended", lambda old, new: extends(seq_term(new.g_applied), seq_term(old.g_applied))),
-    ("sent-log-only-grows", lambda old, new: extends(sent(new), sent(old))),
+    ("sent-log-only-grows", lambda old, new: sent_extends(sent(new), sent(old))),
 ]
 cls(RaftNode, inv=NODE_INV, guarantee=NODE_GUAR)
 
@@ -756,8 +783,8 @@ def _election_started(s):
 def _requests_to_all_peers(s):
     new, old = sent(s.self), sent(s.old(s.self))
     n = slen(s.self._peers)
-    return extends_by(new, old, n) & forall(
-        Int, lambda j: implies((0 <= j) & (j < n), vote_request_ok(s.self, nth(new, z3.Length(old) + j.t), j)), "j")
+    return sent_extends_by(new, old, n) & forall(
+        Int, lambda j: implies((0 <= j) & (j < n), vote_request_ok(s.self, new.at(old.n + j.t), j)), "j")
 
 
 def _log_untouched(s):
@@ -787,12 +814,12 @@ fn(RaftNode, "_handle_election_timeout", args={"event": Ref(Event)}, uses=[SEND,
 # ---- voting (L2, election restriction) ---------------------------------------------------------
 def n_sent(s):
     """number of messages this call created"""
-    return mk_num(z3.Length(sent(s.self)) - z3.Length(sent(s.old(s.self))))
+    return mk_num(sent(s.self).n - sent(s.old(s.self)).n)
 
 
 def first_sent(s, k=0):
     """raw element: the (k+1)-th message created by this call"""
-    return nth(sent(s.self), z3.Length(sent(s.old(s.self))) + k)
+    return sent(s.self).at(sent(s.old(s.self)).n + k)
 
 
 def _rv_granted(s):
@@ -886,9 +913,9 @@ def _leader_announces(s):
     """a new leader resets its view of every follower and sends each an AppendEntries of its term"""
     n = slen(s.self._peers)
     new, old = sent(s.self), sent(s.old(s.self))
-    return implies(_became_leader(s), extends_by(new, old, n)
+    return implies(_became_leader(s), sent_extends_by(new, old, n)
                    & forall(Int, lambda j: implies((0 <= j) & (j < n), replication_reset(s.self, j)
-                                                   & append_ok(s.self, nth(new, z3.Length(old) + j.t), j)), "j"))
+                                                   & append_ok(s.self, new.at(old.n + j.t), j)), "j"))
 
 
 fn(RaftNode, "_handle_vote_response", args={"event": Ref(Event)}, uses=[SEND, UNIFORM], focus=node_focus,
@@ -914,6 +941,7 @@ def mirrors(E, ents, prev):
     cnt = z3.If(p < n, n - p, z3.IntVal(0))
 
     def body(k):
+        hint(k, p + k.t)
         e, r = nth(t, p + k.t), nth(E, k.t)
         return implies((0 <= k) & mk_bool(k.t < cnt), mk_bool(z3.And(
             ER.f_index(r) == p + 1 + k.t, ER.f_term(r) == LE.term(e), ER.f_command(r) == LE.command(e),
@@ -940,8 +968,8 @@ def append_ok(o, elem, j):
 def _appends_to_all_peers(s):
     n = slen(s.self._peers)
     new, old = sent(s.self), sent(s.old(s.self))
-    return extends_by(new, old, n) & forall(
-        Int, lambda j: implies((0 <= j) & (j < n), append_ok(s.self, nth(new, z3.Length(old) + j.t), j)), "j")
+    return sent_extends_by(new, old, n) & forall(
+        Int, lambda j: implies((0 <= j) & (j < n), append_ok(s.self, new.at(old.n + j.t), j)), "j")
 
 
 fn(RaftNode, "_send_append_entries", uses=[SEND], focus=node_focus, ensures=[
